@@ -114,6 +114,10 @@ def run_case(case):
         # the history on the first object
         hist = []
         shared = params_impl(Pa)          # one params dict object that is changed *in place* between calls
+        # one initial_states dict object per batch, passed to every call of the history (a caller who keeps its inputs)
+        init_objs = [init_impl(mj, x) for x in inits]
+        init_snap = [_snapshot_params(x) for x in init_objs]
+        init_keys = [list(x) for x in init_objs]
         for step in range(r.randint(5, 9)):
             pi, ii, si = r.randrange(2), r.randrange(2), r.randrange(2)
             leaf = r.choice(["float", "numpy", "jax"])
@@ -131,10 +135,12 @@ def run_case(case):
                             shared[k_][kk_] = vv_
                     else:
                         shared[k_] = v_
-                df = fns.solve_and_simulate(shared, initial_states=init_impl(mj, inits[ii]), seed=seeds[si])
+                df = fns.solve_and_simulate(shared, initial_states=init_objs[ii], seed=seeds[si])
                 evals += 1
                 if _frame_key(df) != ref_sim[(pi, ii, si)]:
                     vs.append({"clause": "a call returns the result determined by its own arguments", "detail": f"history {hist}: solve_and_simulate with a params dict changed in place differs from a fresh function object called with the same values"})
+                if [_snapshot_params(x) for x in init_objs] != init_snap or [list(x) for x in init_objs] != init_keys:
+                    vs.append({"clause": "initial_states passed in are not modified", "detail": f"history {hist}: the caller's initial_states dict changed during the call"})
                 if vs:
                     break
                 continue
@@ -145,12 +151,14 @@ def run_case(case):
                 if diffs:
                     vs.append({"clause": "a call returns the result determined by its own arguments", "detail": f"history {hist}: solve differs from the model: {diffs[0]['detail']}"})
             else:
-                df = fns.simulate(params, initial_states=init_impl(mj, inits[ii]), vf_arr_list=Vref[pi], seed=seeds[si])
+                df = fns.simulate(params, initial_states=init_objs[ii], vf_arr_list=Vref[pi], seed=seeds[si])
                 evals += 1
                 if _frame_key(df) != ref_sim[(pi, ii, si)]:
                     vs.append({"clause": "a call returns the result determined by its own arguments", "detail": f"history {hist}: simulate differs from a fresh function object called with the same arguments"})
             if _snapshot_params(params) != before:
                 vs.append({"clause": "params passed in are not modified", "detail": f"history {hist}"})
+            if [_snapshot_params(x) for x in init_objs] != init_snap or [list(x) for x in init_objs] != init_keys:
+                vs.append({"clause": "initial_states passed in are not modified", "detail": f"history {hist}: the caller's initial_states dict changed during the call"})
             if vs:
                 break
         # rebuild from the same model object and compare
